@@ -272,9 +272,17 @@ func (m *M) flush(done bool) {
 	}
 	m.rep.Extra["violations_by_signature"] = sc
 	b, err := json.MarshalIndent(&m.rep, "", " ")
+	if err != nil {
+		// a sample / extra value that JSON cannot carry (NaN, Inf, func): drop those, keep the verdict data
+		cp := m.rep
+		cp.Samples = []any{fmt.Sprintf("samples dropped: %v", err)}
+		cp.Extra = map[string]any{"marshal_error": err.Error()}
+		cp.Inconclusive = append(append([]string{}, cp.Inconclusive...), "report could not be marshalled completely: "+err.Error())
+		b, err = json.MarshalIndent(&cp, "", " ")
+	}
 	m.mu.Unlock()
 	if err != nil {
-		b = []byte(fmt.Sprintf(`{"property":%q,"test":%q,"marshal_error":%q}`, m.rep.Property, m.rep.Test, err.Error()))
+		b = []byte(fmt.Sprintf(`{"property":%q,"test":%q,"done":false,"inconclusive":[%q]}`, m.rep.Property, m.rep.Test, "marshal error: "+err.Error()))
 	}
 	tmp := m.out + ".tmp"
 	if os.WriteFile(tmp, b, 0o644) == nil {
